@@ -152,6 +152,10 @@ func (c *Ctx) scriptIsolation(rule string, a *pta.Analysis, bindingsOnly bool) i
 		key := fmt.Sprintf("%s#%d", base, eidx[base])
 		var bad []string
 		for o := range reach {
+			if (o.Kind == pta.KGlobal || o.Kind == pta.KGlobalSub) && !bindingsOnly {
+				bad = append(bad, o.Name+" (package-level: shared by every execution)")
+				continue
+			}
 			if o.Kind != pta.KRoot {
 				continue
 			}
@@ -166,7 +170,7 @@ func (c *Ctx) scriptIsolation(rule string, a *pta.Analysis, bindingsOnly bool) i
 		n++
 		c.R.Check(len(bad) == 0, rule, key, c.pos(e.Instr),
 			fmt.Sprintf("%d objects reachable from the value; none is the caller's bindings (any depth)", len(reach)),
-			"a value handed to the script runtime can reach caller-owned data, so a script can change it in place: "+strings.Join(bad, ", "))
+			"a value handed to the script runtime can reach caller-owned or shared data, so a script can change it in place: "+strings.Join(bad, ", "))
 	}
 	return n
 }
@@ -271,6 +275,10 @@ func C10(c *Ctx) {
 		}
 		var bad []string
 		for o := range reach {
+			if o.Kind == pta.KGlobal || o.Kind == pta.KGlobalSub {
+				bad = append(bad, o.Name+" (package-level: shared by every execution)")
+				continue
+			}
 			if o.Kind != pta.KRoot {
 				continue
 			}
